@@ -195,6 +195,11 @@ static void parse_args(int argc, char **argv) {
       continue;
     }
 
+    if (!strcmp(argv[i], "-I")) {
+      strarray_push(&include_paths, argv[++i]);
+      continue;
+    }
+
     if (!strncmp(argv[i], "-I", 2)) {
       strarray_push(&include_paths, argv[i] + 2);
       continue;
